@@ -5,6 +5,7 @@ import Driver.Names
 import Driver.Validators
 import Driver.History
 import Driver.Config
+import Driver.Project
 /-! `tgdriver`: reads one JSON request per line on stdin, answers one JSON line per request. -/
 open Lean Drv
 
@@ -22,6 +23,7 @@ def dispatch (op : String) (inp imp : Json) : Except String Json :=
   | "history" => opHistory inp imp
   | "configSave" => opConfigSave inp imp
   | "configResolve" => opConfigResolve inp imp
+  | "project" => opProjectAnalysis inp imp
   | _ => .error s!"unknown op {op}"
 
 def handleLine (line : String) : String :=
